@@ -20,7 +20,9 @@ TECHNIQUE = ("Lean 4 model of the node layer's read-only guards (dirnode.py / mu
              "HTTP bytes fed to the channel, no sockets) against mixed-authority trees and comparing status class, error phase and "
              "the resulting directory tree with the table; monitor = storage-server snapshot before/after + write-key scan of responses")
 LEVEL_TEXT = ("PARTIAL. Proved for the model: every request of the dispatch table made with a cap that carries no write key, or "
-              "whose path passes through a node reached read-only, leaves the grid unchanged and is refused (except the mkdir forms "
+              "whose path passes through a node reached read-only, or (POST forms, which act on the addressed node itself, incl. "
+              "t=relink with any to_dir=) whose addressed directory / mutable file is reached read-only, leaves the grid unchanged "
+              "and is refused (except the mkdir forms "
               "answered with the URI of an already existing directory), for every grid, path and request; every cap string in "
               "t=json / t=info / HTML listing / t=uri output for a node reached read-only is a read or verify cap. The web layer "
               "(3 500 lines) is NOT modelled beyond this table: the table was written by reading web/*.py and is tied to it only by "
@@ -34,7 +36,11 @@ RULE = ("seeded scenarios: one grid + real web resource tree, a random mixed-aut
         "cap, immutable dir, CHK/LIT files, SDMF/MDMF files by write and read cap, verify caps) and a stream of random requests "
         "(PUT/POST t=…/DELETE with every t of the table, replace=true/false/only-files, format=sdmf, paths of length 0..4 with "
         "existing and missing names) addressed through read-only/verify caps, through paths crossing a read-only link, and through "
-        "write caps; plus GETs (t=json/info/uri/readonly-uri/HTML). A case is one request; distinct = distinct (authority class, "
+        "write caps; a focused stream of t=relink / t=rename out of directories addressed without write authority (read cap, "
+        "read-only last link, below a read-only link) with to_dir= naming a different writeable directory by cap and by cap/path "
+        "and from_name naming file / directory / mutable-file children; after every such request the whole logical grid (every "
+        "directory of the tree incl. those named in parameters, every mutable file's contents) and every share file is compared "
+        "with its state before, whatever the status code; plus GETs (t=json/info/uri/readonly-uri/HTML). A case is one request; distinct = distinct (authority class, "
         "method, t, outcome class, target shape); non-trivial = every modifying request and every GET through a read-only path.")
 TRUSTED = ["harness/grid.py (in-process grid, virtual clock)", "the HTTP feeding shim in harness/props/c41.py (StringTransport in, raw bytes out)",
            "the tree mirror read back through the strongest caps the harness holds"]
